@@ -692,7 +692,7 @@ func (db *RockDB) SetRange(ts int64, rawKey []byte, offset int, value []byte) (i
 	if len(value) == 0 {
 		return 0, nil
 	}
-	if len(value)+offset > MaxValueSize {
+	if offset < 0 || offset > MaxValueSize || len(value)+offset > MaxValueSize {
 		return 0, errValueSize
 	}
 	keyInfo, realV, err := db.prepareKVValueForWrite(ts, rawKey, false)
